@@ -196,7 +196,7 @@ Qed.
 (* ------------------------------------------------------------------ guards as hypotheses *)
 
 Ltac split_guards H :=
-  cbn [forallb guards] in H;
+  cbn [forallb guards app outs_guards] in H;
   rewrite ?holds_0 in H;
   repeat match type of H with
          | (_ && _) = true => let H1 := fresh "G" in apply andb_true_iff in H; destruct H as [H1 H]
@@ -207,32 +207,32 @@ Ltac split_guards H :=
 
 (* ------------------------------------------------------------------ the J-effect lemma *)
 
-Inductive jeff (c : cfg) (s s' : state) (x : nat) : Prop :=
-| JE_same : Jb s' x = Jb s x -> jeff c s s' x
-| JE_cancel : Jb s' x = cancel_j (Jb s x) -> (exists n, In x (pend (Rn s n))) -> jeff c s s' x
-| JE_uncp : st (Jb s x) = Running -> j_sched (jc c x) = true -> cp (Jb s x) = true ->
-            Jb s' x = mkJst Running false (tend (Jb s x)) (ran (Jb s x)) -> jeff c s s' x
+Inductive jeff (c : cfg) (s s' : state) (x : nat) (sub : Prop) : Prop :=
+| JE_same : Jb s' x = Jb s x -> jeff c s s' x sub
+| JE_cancel : Jb s' x = cancel_j (Jb s x) -> (exists n, In x (pend (Rn s n))) -> jeff c s s' x sub
+| JE_uncp : sub -> st (Jb s x) = Running -> j_sched (jc c x) = true -> cp (Jb s x) = true ->
+            Jb s' x = mkJst Running false (tend (Jb s x)) (ran (Jb s x)) -> jeff c s s' x sub
 | JE_create_main : st (Jb s x) = Idle -> Jb s' x = mkJst Created false None false ->
                    all_done s (reqs c x) = true -> In x (members c (parent c x)) ->
-                   ph (Rn s (parent c x)) = PMain -> ph (Rn s' (parent c x)) = PMain -> jeff c s s' x
+                   ph (Rn s (parent c x)) = PMain -> ph (Rn s' (parent c x)) = PMain -> jeff c s s' x sub
 | JE_create_begin : Jb s' x = mkJst Created false None false ->
                     reqs c x = [] -> In x (members c (parent c x)) ->
                     (if rootb (parent c x) then ph (Rn s 0) = PIdle
                      else st (Jb s (parent c x)) = Created) ->
-                    ph (Rn s' (parent c x)) = PMain -> jeff c s s' x
-| JE_start : st (Jb s x) = Created -> cp (Jb s x) = false ->
-             st (Jb s' x) = Running -> cp (Jb s' x) = false -> ran (Jb s' x) = true -> jeff c s s' x
-| JE_start_done : st (Jb s x) = Created -> cp (Jb s x) = false -> j_sched (jc c x) = true ->
+                    ph (Rn s' (parent c x)) = PMain -> jeff c s s' x sub
+| JE_start : sub -> st (Jb s x) = Created -> cp (Jb s x) = false ->
+             st (Jb s' x) = Running -> cp (Jb s' x) = false -> ran (Jb s' x) = true -> jeff c s s' x sub
+| JE_start_done : sub -> st (Jb s x) = Created -> cp (Jb s x) = false -> j_sched (jc c x) = true ->
                   members c x = [] ->
-                  Jb s' x = mkJst (DoneRet RVTrue) false None true -> jeff c s s' x
-| JE_done : st (Jb s x) = Running -> cp (Jb s x) = false ->
-            is_done (st (Jb s' x)) = true -> cp (Jb s' x) = false -> ran (Jb s' x) = true -> jeff c s s' x
-| JE_hit : st (Jb s x) = Running -> cp (Jb s x) = true -> j_sched (jc c x) = false ->
-           st (Jb s' x) = Cancelling -> cp (Jb s' x) = false -> ran (Jb s' x) = true -> jeff c s s' x
-| JE_cancelled : (st (Jb s x) = Cancelling \/ (st (Jb s x) = Running /\ j_sched (jc c x) = true)) ->
-                 Jb s' x = mkJst Cancelled false None true -> jeff c s s' x
-| JE_gone : st (Jb s x) = Created -> cp (Jb s x) = true ->
-            Jb s' x = mkJst Cancelled false None false -> jeff c s s' x.
+                  Jb s' x = mkJst (DoneRet RVTrue) false None true -> jeff c s s' x sub
+| JE_done : sub -> st (Jb s x) = Running -> cp (Jb s x) = false ->
+            is_done (st (Jb s' x)) = true -> cp (Jb s' x) = false -> ran (Jb s' x) = true -> jeff c s s' x sub
+| JE_hit : sub -> st (Jb s x) = Running -> cp (Jb s x) = true -> j_sched (jc c x) = false ->
+           st (Jb s' x) = Cancelling -> cp (Jb s' x) = false -> ran (Jb s' x) = true -> jeff c s s' x sub
+| JE_cancelled : sub -> (st (Jb s x) = Cancelling \/ (st (Jb s x) = Running /\ j_sched (jc c x) = true)) ->
+                 Jb s' x = mkJst Cancelled false None true -> jeff c s s' x sub
+| JE_gone : sub -> st (Jb s x) = Created -> cp (Jb s x) = true ->
+            Jb s' x = mkJst Cancelled false None false -> jeff c s s' x sub.
 
 Lemma rootb_true n : rootb n = true <-> n = 0.
 Proof. unfold rootb. apply Nat.eqb_eq. Qed.
@@ -247,7 +247,7 @@ Proof. intros H. cbn [Rn setR]. apply upd_other. exact H. Qed.
 Lemma jeff_begin c s n x : wf c = true -> sched_id c n = true ->
   (if rootb n then match ph (Rn s n) with PIdle => true | _ => false end
    else match st (Jb s n) with Created => negb (cp (Jb s n)) | _ => false end) = true ->
-  jeff c s (fst (react_begin c n s)) x.
+  jeff c s (fst (react_begin c n s)) x (x = n).
 Proof.
   intros W Hs Hg. unfold react_begin.
   set (s0 := if Nat.eqb n 0 then s else _).
@@ -290,7 +290,7 @@ Qed.
 
 Lemma jeff_exit_main c s0 s n w p x :
   Jb s0 = Jb s -> (forall y, In y p -> In y (pend (Rn s n))) ->
-  jeff c s (fst (exit_main c n w p s0)) x.
+  jeff c s (fst (exit_main c n w p s0)) x (x = n).
 Proof.
   intros EJ Hp. pose proof (Jb_exit_main c n w p s0 x) as E. rewrite EJ in E.
   destruct (memb x p) eqn:Ex.
@@ -299,7 +299,7 @@ Proof.
 Qed.
 
 Lemma jeff_main c s n d x : wf c = true -> ph (Rn s n) = PMain ->
-  jeff c s (fst (react_main c n d s)) x.
+  jeff c s (fst (react_main c n d s)) x (x = n).
 Proof.
   intros W Hph. unfold react_main.
   assert (Hsub : forall y, In y (diff (pend (Rn s n)) d) -> In y (pend (Rn s n))).
@@ -312,7 +312,7 @@ Proof.
     + destruct (Nat.eqb _ _) eqn:Ecnt.
       * apply jeff_exit_main; [reflexivity|exact Hsub].
       * cbn [fst]. set (cand := filter _ (members c n)). set (new := filter _ cand).
-        match goal with |- jeff c s ?S' x =>
+        match goal with |- jeff c s ?S' x _ =>
           assert (E : Jb S' x = if memb x new then create_j (Jb s x) else Jb s x) by reflexivity;
           assert (ER : ph (Rn S' n) = PMain) by (rewrite Rn_setR_same; cbn [ph]; exact Hph)
         end.
@@ -349,13 +349,13 @@ Qed.
 Lemma jeff_end_cancelled c s0 s n x :
   (forall y, y <> n -> Jb s0 y = Jb s y) ->
   j_sched (jc c n) = true -> (n <> 0 -> st (Jb s n) = Running) -> (n = 0 -> Jb s0 = Jb s) ->
-  jeff c s (fst (end_cancelled c n s0)) x.
+  jeff c s (fst (end_cancelled c n s0)) x (x = n).
 Proof.
   intros Ho Hs Hr H0. pose proof (Jb_end_cancelled c n s0 x) as E.
   destruct (Nat.eqb_spec n 0) as [->|Hn0].
   - apply JE_same. rewrite E, (H0 eq_refl). reflexivity.
   - destruct (Nat.eqb_spec x n) as [->|Hxn].
-    + apply JE_cancelled; [right; auto|exact E].
+    + apply JE_cancelled; [reflexivity|right; auto|exact E].
     + apply JE_same. rewrite E. apply Ho. exact Hxn.
 Qed.
 
@@ -367,7 +367,7 @@ Qed.
 
 Lemma jeff_finish_run c s0 s n w r cu x :
   Jb s0 = Jb s -> (n <> 0 -> st (Jb s n) = Running /\ cp (Jb s n) = false) ->
-  jeff c s (fst (finish_run c n w r cu s0)) x.
+  jeff c s (fst (finish_run c n w r cu s0)) x (x = n).
 Proof.
   intros EJ Hr. pose proof (Jb_finish_run c n w r cu s0 x) as E. rewrite EJ in E.
   destruct (Nat.eqb_spec n 0) as [->|Hn0]; [apply JE_same; exact E|].
@@ -376,7 +376,7 @@ Proof.
   apply JE_done; auto; rewrite E; cbn [st cp ran]; auto. apply verdict_done.
 Qed.
 
-Lemma jeff_tidy c s n x : run_alive c s n false = true -> jeff c s (fst (react_tidy c n s)) x.
+Lemma jeff_tidy c s n x : run_alive c s n false = true -> jeff c s (fst (react_tidy c n s)) x (x = n).
 Proof.
   intros Ha. destruct (run_alive_false _ _ _ Ha) as (Hs & Hn & Hr).
   unfold react_tidy. destruct (rcanc (Rn s n)).
@@ -384,7 +384,7 @@ Proof.
   - apply JE_same. rewrite Jb_shutdown_start. reflexivity.
 Qed.
 
-Lemma jeff_ctidy c s n x : run_alive c s n false = true -> jeff c s (fst (end_cancelled c n s)) x.
+Lemma jeff_ctidy c s n x : run_alive c s n false = true -> jeff c s (fst (end_cancelled c n s)) x (x = n).
 Proof.
   intros Ha. destruct (run_alive_false _ _ _ Ha) as (Hs & Hn & Hr).
   apply jeff_end_cancelled; auto. intros Hn0. apply Hr. exact Hn0.
@@ -392,7 +392,7 @@ Qed.
 
 Lemma jeff_shut c s n p cu x :
   (sd_inline s n = true -> run_alive c s n false = true) ->
-  jeff c s (fst (react_shut c n p cu s)) x.
+  jeff c s (fst (react_shut c n p cu s)) x (x = n).
 Proof.
   intros Hi. unfold react_shut.
   pose proof (fun y => Jb_react_shut_wake c n p s y) as E1.
@@ -413,16 +413,16 @@ Qed.
 
 Lemma jeff_shtidy c s n cu x :
   (sd_inline s n = true -> run_alive c s n false = true) ->
-  jeff c s (fst (react_shtidy c n cu s)) x.
+  jeff c s (fst (react_shtidy c n cu s)) x (x = n).
 Proof.
   intros Hi. unfold react_shtidy, react_shtidy_wake.
   set (s1 := setS s n _). set (r := if scanc (Sd s n) then SRCancelled else SRFalse).
   assert (EJ : Jb s1 = Jb s) by reflexivity.
   destruct (sd_inline s n) eqn:Ein.
   - destruct (run_alive_false _ _ _ (Hi eq_refl)) as (Hs & Hn & Hr).
-    assert (Hfin : jeff c s (fst (finish_run c n (why_of s n) r cu s1)) x).
+    assert (Hfin : jeff c s (fst (finish_run c n (why_of s n) r cu s1)) x (x = n)).
     { apply jeff_finish_run; auto. }
-    assert (Hcan : jeff c s (fst (end_cancelled c n s1)) x).
+    assert (Hcan : jeff c s (fst (end_cancelled c n s1)) x (x = n)).
     { apply jeff_end_cancelled;
         [intros y _; rewrite EJ; reflexivity | exact Hs | intros Hn0; apply Hr; exact Hn0
         | intros _; exact EJ]. }
@@ -439,7 +439,7 @@ Lemma jeff_cancel_list c s n l x s' :
   wf c = true -> pend_ok c s -> run_alive c s n true = true ->
   (forall y, In y l -> In y (pend (Rn s n))) ->
   Jb s' x = Jb (mapJ cancel_j l (clear_cp s n)) x ->
-  jeff c s s' x.
+  jeff c s s' x (x = n).
 Proof.
   intros W Hp Ha Hl E. destruct (run_alive_true _ _ _ Ha) as (Hs & Hn & Hn0 & Hst & Hcp).
   rewrite Jb_mapJ, Jb_clear_cp in E.
@@ -455,7 +455,7 @@ Qed.
 
 Lemma jeff_cancel_main c s n x :
   wf c = true -> pend_ok c s -> run_alive c s n true = true ->
-  jeff c s (fst (react_cancel_main c n s)) x.
+  jeff c s (fst (react_cancel_main c n s)) x (x = n).
 Proof.
   intros W Hp Ha. destruct (run_alive_true _ _ _ Ha) as (Hs & Hn & Hn0 & Hst & Hcp).
   unfold react_cancel_main.
@@ -473,7 +473,7 @@ Qed.
 
 Lemma jeff_cancel_tidy c s n x :
   wf c = true -> pend_ok c s -> run_alive c s n true = true ->
-  jeff c s (fst (react_cancel_tidy c n s)) x.
+  jeff c s (fst (react_cancel_tidy c n s)) x (x = n).
 Proof.
   intros W Hp Ha. unfold react_cancel_tidy. cbn [fst].
   eapply jeff_cancel_list; eauto.
@@ -481,7 +481,7 @@ Qed.
 
 Lemma jeff_cancel_ctidy c s n x :
   wf c = true -> pend_ok c s -> run_alive c s n true = true ->
-  jeff c s (fst (react_cancel_ctidy c n s)) x.
+  jeff c s (fst (react_cancel_ctidy c n s)) x (x = n).
 Proof.
   intros W Hp Ha. unfold react_cancel_ctidy. cbn [fst].
   eapply jeff_cancel_list; eauto.
@@ -489,7 +489,7 @@ Qed.
 
 Lemma jeff_cancel_shut c s n x :
   (sd_inline s n = true -> run_alive c s n true = true) ->
-  jeff c s (fst (react_cancel_shut c n s)) x.
+  jeff c s (fst (react_cancel_shut c n s)) x (x = n).
 Proof.
   intros Hi. unfold react_cancel_shut.
   set (s0 := if sd_inline s n then clear_cp s n else clear_hcp s n).
@@ -514,27 +514,34 @@ Proof.
   unfold sd_thread_ok. cbn [fst]. rewrite holds_0. intros H Hi. rewrite Hi in H. exact H.
 Qed.
 
+Definition subject (e : event) (x : nat) : Prop :=
+  match e with
+  | EBegin n _ | EWake n _ _ _ | ECancelled n _ _ => x = n
+  | EStart j | EFinish j _ | ECancelHit j | ECancelEnd j | ECancelAbort j | EGone j => x = j
+  | _ => False
+  end.
+
 Theorem J_effect lvl c s e s' :
-  wf c = true -> pend_ok c s -> step lvl c s e = Some s' -> forall x, jeff c s s' x.
+  wf c = true -> pend_ok c s -> step lvl c s e = Some s' -> forall x, jeff c s s' x (subject e x).
 Proof.
   intros W Hp Hstep x. apply step_inv in Hstep. destruct Hstep as [-> Hg].
-  destruct e as [n o|n k d o|n k o|n o|j|j oc|j|j|j|j|j|j|j|j|t|t|jv sv]; cbn [reaction].
+  destruct e as [n o|n k d o|n k o|n o|j|j oc|j|j|j|j|j|j|j|j|t|t|jv sv]; cbn [reaction subject].
   - (* EBegin *) split_guards Hg. apply jeff_begin; assumption.
   - (* EWake *) destruct k; cbn [reaction].
     + split_guards Hg. apply jeff_main; [exact W|]. destruct (ph (Rn s n)); try discriminate. reflexivity.
     + split_guards Hg. apply jeff_tidy. assumption.
     + split_guards Hg. apply jeff_ctidy. assumption.
-    + cbn [forallb guards] in Hg. apply andb_true_iff in Hg. destruct Hg as [G1 _].
+    + cbn [forallb guards app outs_guards] in Hg. apply andb_true_iff in Hg. destruct Hg as [G1 _].
       apply jeff_shut. eapply sd_thread_inline; eauto.
-    + cbn [forallb guards] in Hg. apply andb_true_iff in Hg. destruct Hg as [G1 _].
+    + cbn [forallb guards app outs_guards] in Hg. apply andb_true_iff in Hg. destruct Hg as [G1 _].
       apply jeff_shtidy. eapply sd_thread_inline; eauto.
   - (* ECancelled *) destruct k; cbn [reaction].
     + split_guards Hg. apply jeff_cancel_main; assumption.
     + split_guards Hg. apply jeff_cancel_tidy; assumption.
     + split_guards Hg. apply jeff_cancel_ctidy; assumption.
-    + cbn [forallb guards] in Hg. apply andb_true_iff in Hg. destruct Hg as [G1 _].
+    + cbn [forallb guards app outs_guards] in Hg. apply andb_true_iff in Hg. destruct Hg as [G1 _].
       apply jeff_cancel_shut. eapply sd_thread_inline; eauto.
-    + cbn [forallb guards] in Hg. apply andb_true_iff in Hg. destruct Hg as [G1 _].
+    + cbn [forallb guards app outs_guards] in Hg. apply andb_true_iff in Hg. destruct Hg as [G1 _].
       apply jeff_cancel_shut. eapply sd_thread_inline; eauto.
   - (* ESdStart *) apply JE_same. cbn [reaction]. rewrite Jb_react_sdstart. reflexivity.
   - (* EStart *) split_guards Hg. cbn [fst].
@@ -561,12 +568,12 @@ Proof.
     assert (E : forall y, Jb (eff_cancel_over c j s) y = upd (Jb s) j (mkJst Cancelled false None true) y) by reflexivity.
     destruct (Nat.eqb_spec x j) as [->|Hx]; [|apply JE_same; rewrite E, upd_other by exact Hx; reflexivity].
     destruct (st (Jb s j)) eqn:Est; try discriminate.
-    apply JE_cancelled; [left; exact Est|]. rewrite E, upd_same. reflexivity.
+    apply JE_cancelled; [reflexivity|left; exact Est|]. rewrite E, upd_same. reflexivity.
   - (* ECancelAbort *) split_guards Hg. cbn [fst].
     assert (E : forall y, Jb (eff_cancel_over c j s) y = upd (Jb s) j (mkJst Cancelled false None true) y) by reflexivity.
     destruct (Nat.eqb_spec x j) as [->|Hx]; [|apply JE_same; rewrite E, upd_other by exact Hx; reflexivity].
     destruct (st (Jb s j)) eqn:Est; try discriminate.
-    apply JE_cancelled; [left; exact Est|]. rewrite E, upd_same. reflexivity.
+    apply JE_cancelled; [reflexivity|left; exact Est|]. rewrite E, upd_same. reflexivity.
   - (* EGone *) split_guards Hg. cbn [fst].
     assert (E : forall y, Jb (eff_gone j s) y = upd (Jb s) j (mkJst Cancelled false None false) y) by reflexivity.
     destruct (Nat.eqb_spec x j) as [->|Hx]; [|apply JE_same; rewrite E, upd_other by exact Hx; reflexivity].
@@ -580,3 +587,9 @@ Proof.
   - apply JE_same. reflexivity.
   - apply JE_same. reflexivity.
 Qed.
+
+Lemma cancel_j_st0 a : st (cancel_j a) = st a.
+Proof. unfold cancel_j. destruct (finished (st a)); reflexivity. Qed.
+
+Lemma done_finished0 a : is_done a = true -> finished a = true.
+Proof. destruct a; cbn; auto. Qed.
